@@ -3,6 +3,7 @@ package main
 // Symbolic execution of go/ssa (NaiveForm) with state merging and loop cutting.
 
 import (
+	"go/ast"
 	"fmt"
 	"go/constant"
 	"go/token"
@@ -1907,6 +1908,24 @@ func (e *Engine) siteAsserts(fr *Frame, st *State, instr ssa.Instruction) {
 		env := e.loopEnv(fr, st)
 		if sa.Hint {
 			e.applyHint(env, sa.Cl, st.pc)
+			continue
+		}
+		if sa.Ghost {
+			be, ok := sa.Cl.Expr.(*ast.BinaryExpr)
+			if !ok {
+				panic(fmt.Sprintf("contract error: ghost_at %q: need ghost(g) = expr", sa.Text))
+			}
+			call, ok := be.X.(*ast.CallExpr)
+			if !ok || len(call.Args) != 1 {
+				panic(fmt.Sprintf("contract error: ghost_at %q: need ghost(g) = expr", sa.Text))
+			}
+			g := call.Args[0].(*ast.Ident).Name
+			tv := e.eval(env, be.Y)
+			if tv.Konst != nil {
+				st.ghost[g] = tv.Konst.String()
+			} else {
+				st.ghost[g] = e.vc.define("G_"+g, e.ghostSort(g), e.flatten(tv.T, tv.V)[0])
+			}
 			continue
 		}
 		t, err := e.tryEvalBool(env, sa.Cl.Expr)
